@@ -836,7 +836,7 @@ func c04Chain(tier string, seed int64, idx int, scratch string) rt.CaseResult {
 		clients := make([][]seqrun.Step, nclients)
 		for ci := 0; ci < nclients; ci++ {
 			p := seqrun.Profile{
-				Steps: 50, Keys: keysets[ci], Lens: []int{10, 10, 3000, 40000}, MaxOpen: 1, TxBias: 70, Levels: []int{0, 1, 2, 3},
+				Steps: 50, Keys: keysets[ci], Lens: []int{10, 10, 3000, 40000, 0}, MaxOpen: 1, TxBias: 70, Levels: []int{0, 1, 2, 3},
 				TagPrefix: fmt.Sprintf("h%d-g%d-c%d-", idx, g, ci), FirstTx: g * 1000,
 				W: map[string]int{"begin": 12, "set": 30, "setreader": 4, "delete": 6, "commit": 12, "rollback": 3, "create": 4, "get": 4},
 			}
